@@ -50,7 +50,7 @@ def maybe_run(ds):
         k = _state["k"]
         _state["k"] += 1
         try:
-            signal.setitimer(signal.ITIMER_REAL, 10.0)
+            signal.setitimer(signal.ITIMER_REAL, 10.0, 1.0)
             opts = ds.CompileOptions(include_comments=bool(k % 2), supress_command_not_exist=bool(k % 3 == 0), stack_limit=[20, 5, 9][k % 3])
             c = ds.Compiler(opts)
             c.compile(text)
